@@ -17,6 +17,7 @@ type goGen struct {
 	imports map[string]string    // path -> name
 	err     error
 	hint    types.Type
+	stubDecls []string
 }
 
 type goScope struct {
@@ -114,6 +115,11 @@ func (g *goGen) expr(e SpecExpr, sc *goScope) (string, types.Type) {
 		return "0", nil
 	case *SUn:
 		c, t := g.expr(x.X, sc)
+		if x.Op == "*" && t != nil {
+			if pt, ok := t.Underlying().(*types.Pointer); ok {
+				t = pt.Elem()
+			}
+		}
 		return "(" + x.Op + c + ")", t
 	case *SBin:
 		switch x.Op {
@@ -127,7 +133,16 @@ func (g *goGen) expr(e SpecExpr, sc *goScope) (string, types.Type) {
 			return "((" + a + ") == (" + b + "))", types.Typ[types.Bool]
 		}
 		a, ta := g.expr(x.L, sc)
+		if x.Op != "<<" && x.Op != ">>" && ta != nil && isIntType(ta) {
+			g.hint = ta // an ite of constants on the right takes the type of the left operand
+		}
 		b, tb := g.expr(x.R, sc)
+		g.hint = nil
+		if ta == nil && tb != nil && isIntType(tb) && x.Op != "<<" && x.Op != ">>" {
+			g.hint = tb
+			a, ta = g.expr(x.L, sc)
+			g.hint = nil
+		}
 		if x.Op == "==" || x.Op == "!=" {
 			_, sa := typeUnder(ta).(*types.Slice)
 			_, sb := typeUnder(tb).(*types.Slice)
@@ -138,6 +153,11 @@ func (g *goGen) expr(e SpecExpr, sc *goScope) (string, types.Type) {
 				}
 				return neg + "hvcSameSlice(" + a + ", " + b + ")", types.Typ[types.Bool]
 			}
+		}
+		if x.Op != "<<" && x.Op != ">>" && ta != nil && tb != nil && isIntType(ta) && isIntType(tb) && !types.Identical(ta, tb) {
+			// operands of different integer types (an ite of constants next to a typed value): the
+			// specification means the mathematical value, so the right operand is converted
+			b = g.typeStr(ta) + "(" + b + ")"
 		}
 		var rt types.Type
 		switch x.Op {
@@ -299,6 +319,11 @@ func (g *goGen) call(x *SCall, sc *goScope) (string, types.Type) {
 		return "0", nil
 	}
 	if sf.Uninterp {
+		if m, ok := g.fx.V.observerMethod(sf.Name); ok && len(x.Args) == 1 {
+			// the observer of an interface method: evaluated by calling the method
+			a, _ := g.expr(x.Args[0], sc)
+			return "(" + a + ")." + m + "()", g.fx.resolveType(sf.Ret, g.pkg)
+		}
 		g.fail("uninterpreted spec function %s cannot be evaluated in replay", sf.Name)
 		return "0", nil
 	}
